@@ -317,8 +317,12 @@ Scenario generate(const std::string& prop, uint64_t seed, const std::string& tie
         sc.history = {a, t, b, c};
         topSequence = true;
     }
+    // move / rebuild / (query) / execute histories: C13's workload, and a share of C02's and C15's (an executor that is reused
+    // after a rebuild, lookups before and after a rebuild)
+    const bool rebuildHistory = !topSequence && (prop == "C13" || ((prop == "C02" || prop == "C15") && !numeric
+                                  && (sc.executor == "seq" || sc.executor == "omp" || sc.executor == "seqtsm" || sc.executor == "omptsm") && r.chance(0.15)));
     if (topSequence) {
-    } else if (prop == "C03" || prop == "C02" || prop == "C15" || prop == "C09") {
+    } else if (!rebuildHistory && (prop == "C03" || prop == "C02" || prop == "C15" || prop == "C09")) {
         const int hk = int(r.below(10));
         if (hk < 6) sc.history.push_back(full);
         else if (hk < 8) {   // documented three-stage split
@@ -347,7 +351,7 @@ Scenario generate(const std::string& prop, uint64_t seed, const std::string& tie
             // the user changes the number of threads between the calls (omp_set_num_threads)
             for (size_t i = 1; i < sc.history.size(); ++i) if (r.chance(0.7)) sc.history[i].threads = 1 + int(r.below(16));
         }
-    } else if (prop == "C13") {
+    } else if (rebuildHistory) {
         // cycles of  move -> rebuild -> (execute)
         if (r.chance(0.5)) sc.history.push_back(full);
         const int cycles = 1 + int(r.below(3));
